@@ -2,6 +2,10 @@ package litefs
 
 // verifHarnesses maps harness function names to the functions (native replay).
 var verifHarnesses = map[string]func(){
+	"VerifC15Drop":        VerifC15Drop,
+	"VerifC15ReplicaDrop": VerifC15ReplicaDrop,
+	"VerifC09Listing":     VerifC09Listing,
+	"VerifC09Retention":   VerifC09Retention,
 	"VerifC12Step":     VerifC12Step,
 	"VerifC12Blocking": VerifC12Blocking,
 	"VerifC18FrameRoundTrip": VerifC18FrameRoundTrip,
